@@ -4,7 +4,8 @@ import vlib, fsfam
 import agentfam as af
 
 STRONG, WEAK, WEAK2 = "zq9!Lm#48vRw^t2Ypk", "password", "x"
-PWS = {"p1": STRONG, "p2": WEAK, "p3": WEAK2, "": ""}
+NAMEPW = "Kq7.vm2-Xw9.Lr4_Tz8"           # a valid user name that is also a strong password - except for that very user
+PWS = {"p1": STRONG, "p2": WEAK, "p3": WEAK2, "p4": NAMEPW, "": ""}
 
 
 def scen(name, cond, steps, files, mode="", **kw):
@@ -85,8 +86,19 @@ def run(ctx):
                 i += 1
                 steps.append({"t": "send", "c": "w%d" % i, "k": op, "u": u, "p": p, "a": a, "via": via})
                 steps.append({"t": "sleep", "n": 3})
+        # self-service change over HTTP authorised by the current password: weak new password refused, strong one accepted
+        for j, (u, oldnew) in enumerate((("u1", "p2>p3"), ("u2", "p1>p2"), ("u1", "p2>p1"), ("u1", "p1>p2"))):
+            steps.append({"t": "send", "c": "s%d" % j, "k": "update", "u": u, "p": oldnew, "a": False, "via": "httpold"})
+            steps.append({"t": "sleep", "n": 5})
+        # a password that is fine for one user and fails for the user it names (zxcvbn takes the user name into account)
+        steps.append({"t": "send", "c": "n1", "k": "add", "u": "u3", "p": "p4", "a": False, "via": "api"})
+        steps.append({"t": "sleep", "n": 5})
+        steps.append({"t": "send", "c": "n2", "k": "add", "u": NAMEPW, "p": "p4", "a": False, "via": "api"})
+        steps.append({"t": "sleep", "n": 5})
         steps.append({"t": "free"})
-        scs.append(scen("writes-%s" % k, cond, steps, files, frontends=True, http_admin=["u2", "p1"]))
+        f2 = dict(files)
+        f2[NAMEPW] = {"present": False, "pw": "", "set": 0, "adm": False}
+        scs.append(scen("writes-%s" % k, cond, steps, f2, frontends=True, http_admin=["u2", "p1"]))
         # local upgrade of a weak password: the login succeeds, the record must not be rewritten
         scs.append(scen("upgrade-weak-%s" % k, cond, [{"t": "send", "c": "l1", "k": "auth", "u": "u1", "p": "p2", "a": False}, {"t": "free"}],
                         files, mode="local", expect_unchanged=True, expect_prop="C17", expect_key="upgrade-stored-failing-password"))
